@@ -290,7 +290,12 @@ func (x *expecter) message(f *File, m *Message) *descriptorpb.DescriptorProto {
 // syntheticOneofName: "_" + field name, with more underscores/X prefixed on collision (protoc's rule;
 // the generator's name pools never collide, so only the first candidate is ever used).
 func syntheticOneofName(field string, md *descriptorpb.DescriptorProto) string {
-	name := "_" + field
+	// protoc: prefix an underscore unless the name already starts with one, then prepend 'X' while the
+	// name collides with a field or oneof name (already chosen synthetic names included)
+	name := field
+	if name == "" || name[0] != '_' {
+		name = "_" + name
+	}
 	for {
 		clash := false
 		for _, o := range md.OneofDecl {
